@@ -145,6 +145,33 @@ pub fn run(out: &mut Out, tier: &str, seed: u64) {
             full_entries(out, doc.as_bytes());
         }
     }
+    // every byte value as a stray byte at a token boundary, behind 0..3 blanks, with a tail long enough for the
+    // 64-byte whitespace bitmap (only space, tab, CR and LF are whitespace, on every code path)
+    for b in 0..=255u8 {
+        if matches!(b, b' ' | b'\t' | b'\r' | b'\n') {
+            continue;
+        }
+        for k in 0..4usize {
+            if !thorough && (b as usize + k) % 2 == 1 {
+                continue;
+            }
+            let blanks = " ".repeat(k);
+            let tail = "x".repeat(70);
+            let mut docs: Vec<Vec<u8>> = Vec::new();
+            for (pre, post) in [("[1,", format!(" 2,\"{tail}\"]")), ("{\"k\":", format!("[],\"t\":\"{tail}\"}}")), ("", format!("12{}", " ".repeat(70))), ("[", format!("{{\"a\":\"b\"}},true,\"{tail}\"]"))] {
+                let mut d = pre.as_bytes().to_vec();
+                d.extend_from_slice(blanks.as_bytes());
+                d.push(b);
+                d.extend_from_slice(post.as_bytes());
+                docs.push(d);
+            }
+            for d in docs {
+                out.count("stream:stray-byte");
+                skip_entries(out, &d);
+                full_entries(out, &d);
+            }
+        }
+    }
     // nesting depth around the limits
     let lim = sonic_rs::verif_hooks::parser::MAX_NESTED_DEPTH;
     let slim = sonic_rs::verif_hooks::de::MAX_ALLOWED_DEPTH;
